@@ -126,7 +126,7 @@ def hex_units(s):
 XMLNS = "http://www.w3.org/XML/1998/namespace"
 
 
-def doc_tokens(doc, number=True):
+def doc_tokens(doc, number=True, implicit_xml=True):
     out = []
     counter = [0]
 
@@ -139,9 +139,21 @@ def doc_tokens(doc, number=True):
             if n[1] is not None:
                 # the attributes render_doc writes: n="<element number>" first, then the element's own
                 counter[0] += 1
+                if counter[0] == 1:
+                    # namespace declarations of the document element (render_node) and the implicit xml one — which only
+                    # the XalanSourceTree representation has (the Xerces-DOM wrapper exposes declared prefixes only)
+                    if implicit_xml:
+                        out.append("%xml=" + hex_units(XMLNS))
+                    out.append("%p=" + hex_units(U1))
+                    out.append("%r=" + hex_units(U2))
+                for a, v in n[3]:
+                    if a.startswith("xmlns:"):
+                        out.append("%%%s=%s" % (a[6:], hex_units(v)))
                 if number:
                     out.append("@|n=" + hex_units(str(counter[0])))
                 for a, v in n[3]:
+                    if a.startswith("xmlns:"):
+                        continue
                     out.append("@%s|%s=%s" % ((XMLNS, "space", hex_units(v)) if a == "xml:space" else ("", a, hex_units(v))))
             for c in n[2]:
                 go(c)
@@ -495,6 +507,32 @@ BODIES = [
      '</o></xsl:template>\n'
      '<xsl:template match="*" mode="d"><d p="{position()}" l="{last()}"><xsl:apply-templates mode="d"/></d></xsl:template>\n'
      '<xsl:template match="text()" mode="d"><t p="{position()}" l="{last()}"><xsl:value-of select="."/></t></xsl:template>\n'),
+    # the namespace axis is not in the Lean model (the library answers it with the xmlns attribute nodes of the
+    # ancestors plus a static `xml` node); observed differentially only
+    ("namespace-axis", OUT_XML +
+     '<xsl:template match="/"><o><xsl:for-each select="//*"><e n="{@n}" c="{count(namespace::*)}" '
+     'f="{count(namespace::*[2]/following::node())}" ft="{count(namespace::*[2]/following::text())}" '
+     'u="{count(namespace::* | @* | node())}" p="{count(namespace::*[2]/../node())}" '
+     's="{string-length(namespace::*[2]/..)}"><xsl:for-each select="namespace::*">'
+     '<xsl:value-of select="name()"/>;</xsl:for-each></e></xsl:for-each></o></xsl:template>\n'),
+    # variables holding node-sets and result tree fragments, used after the fact
+    ("variables-2", OUT_XML +
+     '<xsl:template match="/"><o><xsl:for-each select="//*"><xsl:variable name="k" select="node()"/>'
+     '<xsl:variable name="t" select="text()"/><xsl:variable name="r"><xsl:copy-of select="node()"/></xsl:variable>'
+     '<xsl:variable name="s"><xsl:value-of select="."/></xsl:variable>'
+     '<e n="{@n}" k="{count($k)}" t="{count($t)}" k1="{name($k[1])}" kl="{boolean($k[last()][self::text()])}" '
+     'r="{string-length($r)}" s="{string-length($s)}" eq="{$r = $s}" f="{count($k[1]/following-sibling::node())}">'
+     '<xsl:for-each select="$k"><xsl:sort select="." order="descending"/><c p="{position()}" l="{last()}" v="{.}"/></xsl:for-each>'
+     '<xsl:copy-of select="$r"/></e></xsl:for-each></o></xsl:template>\n'),
+    # xsl:copy / xsl:for-each over node() of elements with stripped children; template match predicates with position
+    ("copy-foreach-node", OUT_XML +
+     '<xsl:template match="/"><o><xsl:apply-templates select="//*" mode="c"/></o></xsl:template>\n'
+     '<xsl:template match="*" mode="c"><xsl:copy><xsl:for-each select="node()"><xsl:copy/>'
+     '<i p="{position()}" l="{last()}"/></xsl:for-each><xsl:apply-templates select="node()" mode="p"/></xsl:copy></xsl:template>\n'
+     '<xsl:template match="node()" mode="p"><n p="{position()}" l="{last()}"/></xsl:template>\n'
+     '<xsl:template match="node()[1]" mode="p" priority="1"><first p="{position()}" l="{last()}"/></xsl:template>\n'
+     '<xsl:template match="node()[position() = last()]" mode="p" priority="2"><lastn p="{position()}" l="{last()}"/></xsl:template>\n'
+     '<xsl:template match="*/text()[2]" mode="p" priority="3"><t2/></xsl:template>\n'),
     ("copy-shallow", OUT_XML +
      '<xsl:template match="/"><o><xsl:for-each select="//node()"><xsl:copy/>|</xsl:for-each></o></xsl:template>\n'),
 ]
@@ -526,6 +564,8 @@ def gen_test(r):
 
 def gen_ns(r, d, inpred):
     """node-set valued"""
+    if _NSVARS[0] > 0 and r.chance(1, 3):
+        return ("var", r.below(_NSVARS[0]))
     if d <= 0:
         return r.choice([("self",), ("root",)]) if inpred else ("root",)
     if d >= 1 and r.chance(1, 8):
@@ -535,8 +575,12 @@ def gen_ns(r, d, inpred):
     base = gen_ns(r, d - 1, inpred) if r.chance(3, 4) else (("self",) if inpred else ("root",))
     ax = r.weighted([("child", 8), ("descendant", 6), ("descendant-or-self", 2), ("following-sibling", 4),
                      ("preceding-sibling", 4), ("self", 1), ("parent", 2), ("ancestor", 1), ("ancestor-or-self", 1),
-                     ("following", 3), ("preceding", 3)])
+                     ("following", 3), ("preceding", 3), ("attribute", 3), ("namespace", 2)])
     t = gen_test(r)
+    if ax == "attribute":
+        t = r.choice([("any",), ("any",), ("node",), ("name", "", "n"), ("name", "", "m"), ("text",)])
+    if ax == "namespace":
+        t = r.choice([("any",), ("any",), ("node",), ("name", "", "p"), ("name", "", "xml"), ("name", "", "zz")])
     k = r.weighted([("step", 5), ("stepP", 4), ("stepPP", 1)])
     if k == "step" or d < 1:
         return ("step", base, ax, t)
@@ -562,7 +606,7 @@ def gen_num(r, d, inpred):
     if k == "count":
         return ("count", gen_ns(r, d, inpred))
     if k == "attr-count":
-        return ("attr-count", gen_ns(r, d, inpred))
+        return ("count", ("step", gen_ns(r, d, inpred), "attribute", ("any",)))
     if k == "strlen":
         return ("strlen", gen_str(r, d, inpred))
     if k == "pos":
@@ -584,7 +628,7 @@ def gen_str(r, d, inpred):
     if k == "normalize-space":
         return ("normalize-space", gen_str(r, d - 1, inpred))
     if k == "attr-of":
-        return ("attr-of", gen_ns(r, d, inpred), ("", r.choice(["n", "n", "n", "m"])))
+        return ("string", ("step", gen_ns(r, d, inpred), "attribute", ("name", "", r.choice(["n", "n", "n", "m"]))))
     if k == "local-name":
         return ("local-name", gen_ns(r, d, inpred))
     if k == "lit":
@@ -630,6 +674,22 @@ def gen_expr(r, d=2):
     return gen_any(r, d, False)
 
 
+def gen_expr_vars(r, d=2):
+    """(let v0 := ns-expr) (let v1 := ns-expr using v0) body using both — node-set variables"""
+    n = r.range(1, 2)
+    binds = []
+    for k in range(n):
+        _NSVARS[0] = k
+        binds.append(gen_ns(r, r.range(1, d), False))
+    _NSVARS[0] = n
+    body = gen_any(r, d, False)
+    _NSVARS[0] = 0
+    e = body
+    for b in reversed(binds):
+        e = ("let", b, e)
+    return e
+
+
 def test_xpath(t):
     k = t[0]
     if k == "any":
@@ -660,8 +720,15 @@ def xp_lit(s):
     return "'" + s + "'"
 
 
+_DEPTH = [0]      # number of enclosing lets while an expression is rendered (lets only occur at the top, see eval_body)
+_NSVARS = [0]     # node-set variables in scope while an expression is generated
+
+
 def expr_xpath(e):
+    """variables are de Bruijn indices in the AST (innermost = 0) and named v0, v1, … outermost first"""
     k = e[0]
+    if k == "var":
+        return "$v%d" % (_DEPTH[0] - 1 - e[1])
     if k == "self":
         return "."
     if k == "root":
@@ -679,10 +746,6 @@ def expr_xpath(e):
         return str(e[1])
     if k == "lit":
         return xp_lit(e[1])
-    if k == "attr-of":
-        return "string((%s)/@%s)" % (expr_xpath(e[1]), qn(e[2], XSL_PREFIX))
-    if k == "attr-count":
-        return "count((%s)/@*)" % expr_xpath(e[1])
     if k == "union":
         return "(%s) | (%s)" % (expr_xpath(e[1]), expr_xpath(e[2]))
     if k == "filter":
@@ -703,10 +766,10 @@ def expr_tokens(e):
         return [k]
     if k == "num":
         return ["num", str(e[1])]
+    if k == "var":
+        return ["var", str(e[1])]
     if k == "lit":
         return ["lit", hex_units(e[1])]
-    if k == "attr-of":
-        return ["attr-of", "%s|%s" % e[2]] + expr_tokens(e[1])
     if k in ("step", "stepP", "stepPP"):
         out = [k, e[2], test_token(e[3])] + expr_tokens(e[1])
         for p in e[4:]:
@@ -724,7 +787,18 @@ def xml_attr_escape(s):
 
 
 def eval_body(e):
-    return OUT_TEXT + '<xsl:template match="/"><xsl:value-of select="%s"/></xsl:template>\n' % xml_attr_escape(expr_xpath(e))
+    decls = []
+    depth = 0
+    while e[0] == "let":
+        _DEPTH[0] = depth
+        decls.append('<xsl:variable name="v%d" select="%s"/>' % (depth, xml_attr_escape(expr_xpath(e[1]))))
+        depth += 1
+        e = e[2]
+    _DEPTH[0] = depth
+    out = (OUT_TEXT + '<xsl:template match="/">' + "".join(decls)
+           + '<xsl:value-of select="%s"/></xsl:template>\n' % xml_attr_escape(expr_xpath(e)))
+    _DEPTH[0] = 0
+    return out
 
 
 # ------------------------------------------------------------------------------------------------------
@@ -750,15 +824,72 @@ def copy_body(e):
 
 def key_body(m, use, lit):
     sel = "concat(count(key('k', %s)), '|', key('k', %s))" % (xp_lit(lit), xp_lit(lit))
-    return (OUT_TEXT + '<xsl:key name="k" match="%s" use="%s"/>\n' % (test_xpath(m), xml_attr_escape(expr_xpath(use)))
+    return (OUT_TEXT + '<xsl:key name="k" match="%s" use="%s"/>\n' % (xml_attr_escape(pat_xpath(m)), xml_attr_escape(expr_xpath(use)))
             + '<xsl:template match="/"><xsl:value-of select="%s"/></xsl:template>\n' % xml_attr_escape(sel))
 
 
 def number_body(c, f):
     return (OUT_TEXT + '<xsl:template match="/"><xsl:for-each select="//text()|//*"><xsl:number level="any" count="%s"%s/>|'
-            '</xsl:for-each></xsl:template>\n' % (test_xpath(c), (' from="%s"' % test_xpath(f)) if f else ""))
+            '</xsl:for-each></xsl:template>\n' % (xml_attr_escape(pat_xpath(c)), (' from="%s"' % xml_attr_escape(pat_xpath(f))) if f else ""))
 
 
 def numbersm_body(c, f, level):
     return (OUT_TEXT + '<xsl:template match="/"><xsl:for-each select="//text()|//*"><xsl:number level="%s" count="%s"%s/>|'
-            '</xsl:for-each></xsl:template>\n' % (level, test_xpath(c), (' from="%s"' % test_xpath(f)) if f else ""))
+            '</xsl:for-each></xsl:template>\n' % (level, xml_attr_escape(pat_xpath(c)), (' from="%s"' % xml_attr_escape(pat_xpath(f))) if f else ""))
+
+
+# ------------------------------------------------------------------------------------------------------
+# patterns with several steps and predicates:  ("pat", [(test, pred | None), ...])   (steps separated by "/")
+
+STEP_TESTS = [("text",), ("node",), ("any",), ("name", "", "a"), ("name", "", "b"), ("name", "", "c"), ("name", U1, "a"), ("comment",)]
+
+
+def gen_pattern2(r, allow_node_last=True):
+    n = r.weighted([(1, 3), (2, 4), (3, 1)])
+    steps = []
+    for i in range(n):
+        last = i == n - 1
+        t = r.choice(STEP_TESTS if last else [t for t in STEP_TESTS if t[0] in ("any", "name")])
+        if last and not allow_node_last and t == ("node",):
+            t = ("text",)
+        p = gen_pred(r, r.range(0, 1)) if r.chance(1, 2) else None
+        steps.append((t, p))
+    if n == 1 and steps[0][1] is None:
+        steps[0] = (steps[0][0], gen_pred(r, 1))
+    return ("pat", steps)
+
+
+def is_pat2(p):
+    return p is not None and p[0] == "pat"
+
+
+def pat_xpath(p):
+    if not is_pat2(p):
+        return test_xpath(p)
+    return "/".join(test_xpath(t) + ("[%s]" % expr_xpath(q) if q is not None else "") for t, q in p[1])
+
+
+def pat_sel(p):
+    """the expression a pattern abbreviates, from the document node: //step1/step2…"""
+    e = ("step", ("root",), "descendant-or-self", ("node",))
+    for t, q in p[1]:
+        e = ("step", e, "child", t) if q is None else ("stepP", e, "child", t, q)
+    return e
+
+
+def pat_tokens(p):
+    if p is None:
+        return "none"
+    if not is_pat2(p):
+        return test_token(p)
+    return " ".join(expr_tokens(pat_sel(p)))
+
+
+def add_ns_decls(r, n, top=True):
+    """declare (and re-declare, shadowing) an otherwise unused prefix q on some inner elements"""
+    if n[0] != "elem":
+        return n
+    attrs = list(n[3])
+    if n[1] is not None and not top and r.chance(1, 4):
+        attrs.append(("xmlns:q", r.choice(["urn:q1", "urn:q2"])))
+    return ("elem", n[1], [add_ns_decls(r, c, n[1] is None) for c in n[2]], attrs)
